@@ -99,6 +99,45 @@ CLAIMED = {
             "variables, CNF at the end, input unchanged; grammars with 23-27 variables included.",
             "trusted: TLC, abstraction.py, CFG.tla; CFG equivalence undecidable - bounded word length",
             "TLA+ model with nondeterministic visiting order (TLC exhaustive) + TLC trace validation"),
+    "C02": ("5/C02",
+            "TLC checks the enumerators as level-by-level models (Enumerate.tla: NFA frontier, CNF sentential forms; "
+            "RegexCode/Simplify: budget splitting) against the reference languages on NFA(2,{a,b}), all CNF grammars with "
+            "<= 3 rules, all trees with <= 2 operators.  For objects of all six kinds the real enumerator, "
+            "generate_language and the real acceptance test on every word <= n (n = 0..3) are recorded in one event and "
+            "judged by TLC: nothing longer than n, equal to own acceptance, equal to the reference language "
+            "(saturation semantics / fix-point / step function / denotation), generator returns the same set; PDAs "
+            "under explicit closure limits (equality required only when no closure can hit it), TMs under equal step "
+            "budgets.",
+            "trusted: TLC, abstraction.py, the reference semantics modules; n <= 3",
+            "TLA+ models (TLC exhaustive) + TLC trace validation of recorded calls"),
+    "C09": ("5/C09",
+            "TLC checks PdaRun.tla - closure as a worklist bounded by MaxIter pops with arbitrary pop order, step, "
+            "verdict - over all PDAs with <= 2 (3) moves on 2 states x words <= 2 x MaxIter in {1,2,3}: sound always, "
+            "complete when every exact closure stays below the limit, the oracle's two formulations agree, "
+            "termination.  Real pda_accepts_word verdicts for all words <= n under limits 1..50 (binary-tree PDAs: "
+            "500..5000), before and after an in-place change of the automaton, are judged by TLC against the exact "
+            "saturation semantics (no stack bound).",
+            "trusted: TLC, abstraction.py, PDA.tla (saturation vs configuration exploration cross-checked in the model "
+            "run); words <= 3 (4)",
+            "TLA+ model with nondeterministic pop order (TLC exhaustive) + TLC trace validation"),
+    "C10": ("5/C10",
+            "Every result of the four public transformations (one accepting state, push/pop, accept on empty stack, "
+            "PDA->CFG) on the sampled 2-state universe, hand-written PDAs (acceptance with non-empty stack, markers "
+            "already in the stack alphabet, replace/no-op moves, several/no accepting states) and random PDAs is judged "
+            "by TLC: valid, language equal on all words <= 3 (saturation semantics vs derivability fix-point), "
+            "push/pop only, accepting configurations have an empty stack, input unchanged.  Trace validation against "
+            "the reference semantics only; the algorithm model PdaNormal is listed as future growth.",
+            "trusted: TLC, abstraction.py, PDA.tla, CFG.tla; bounded word length (the statement asks for a bound)",
+            "TLC trace validation of recorded calls against TLA+ reference semantics"),
+    "C11": ("5/C11",
+            "TLC checks TmRun.tla (the step loop with a budget) over all 169 one-working-state TMs on {a,_} (6859 on "
+            "{a,b,_} in thorough) x words <= 2: configuration k equals the reference configuration function, verdict "
+            "three-valued, a decided verdict is final.  tm_simulate_word IS a trace: every recorded configuration "
+            "sequence (169 + sampled 83521 + random TMs, budgets 0..8) is validated step by step by TLC against the "
+            "step function written from the statement, and tm_accepts_word under budgets 0,1,2,3,4,6,8,1000 against the "
+            "reference verdict.",
+            "trusted: TLC, abstraction.py, TM.tla",
+            "TLA+ model (TLC exhaustive) + TLC validation of the implementation's own traces"),
 }
 
 REASON_TODO = "check not built yet (work in progress; see DESIGN.md section 5)"
